@@ -50,9 +50,12 @@ var pool = []text{
 	// two revisions of a submodule, the module that includes it (date-less) and an importer of that module
 	{"sm2.yang", `module sm { ` + H("sm") + ` revision 2022-02-02; revision 2020-01-01; typedef st { type boolean; } grouping sg { leaf own { type st; } } identity si; identity sk { base si; } leaf q { type st; } }`, "sm@2022-02-02", true},
 	{"sm.yang", `module sm { ` + H("sm") + ` revision 2020-01-01; include ss; leaf q { type st; } container smc { uses sg; } }`, "sm@2020-01-01", true},
-	{"ss1.yang", `submodule ss { belongs-to sm { prefix sm; } revision 2020-01-01; typedef st { type int8; } grouping sg { leaf old { type st; } } container sc { leaf a { type st; } } identity si; }`, "ss@2020-01-01", true},
+	{"ss1.yang", `submodule ss { belongs-to sm { prefix sm; } revision 2020-01-01; typedef st { type int8; } grouping sg { leaf old { type st; } } container sc { leaf a { type st; } } identity si; identity sold; }`, "ss@2020-01-01", true},
 	{"ss2.yang", `submodule ss { belongs-to sm { prefix sm; } revision 2021-06-01; typedef st { type string; } grouping sg { leaf new { type st; } leaf-list nl { type st; } } container sc { leaf b { type st; } } identity si; identity sj { base si; } }`, "ss@2021-06-01", true},
 	{"su.yang", `module su { ` + H("su") + ` import sm { prefix sm; } identity sud { base sm:si; } leaf r { type identityref { base sm:si; } } leaf t { type sm:st; } container suc { uses sm:sg; } }`, "su", true},
+	// a base that only the older submodule revision defines (and the later module revision lacks): once
+	// the later one is loaded the base must be reported as unresolved, whatever an earlier run found
+	{"sv.yang", `module sv { ` + H("sv") + ` import sm { prefix sm; } identity svd { base sm:sold; } identity sve { base sm:si; } }`, "sv", true},
 	{"nomand.yang", `module nm { prefix nm; typedef z { type int8; } container nc { typedef nz { type int8 { range "5..1"; } } list nl { typedef nz2 { type nosuch2; } key k; leaf k { type nz2; } } } }`, "", false},
 }
 
@@ -69,7 +72,7 @@ var groups = [][]string{
 	{"g.yang", "h.yang", "k.yang", "r.yang", "syntax.yang", "b1.yang", "b2.yang", "gdup.yang", "nomand.yang"},
 	{"g.yang", "gm.yang", "gsub.yang", "h.yang", "b2.yang", "syntax.yang"},
 	{"g.yang", "v1.yang", "v2.yang", "w.yang", "x.yang", "y.yang", "b1.yang"},
-	{"sm.yang", "sm2.yang", "ss1.yang", "ss2.yang", "su.yang", "b1.yang"},
+	{"sm.yang", "sm2.yang", "ss1.yang", "ss2.yang", "su.yang", "sv.yang", "b1.yang"},
 }
 
 func groupOps(gi int) []int {
